@@ -503,6 +503,10 @@ package vuego
 //@   modifies nothing
 //@ func parseArgs(argStr) (r)
 //@   modifies nothing
+//@ func (v *Vue) resolveValue(ctx, expr) (r, ok)
+//@   modifies caches(v)
+//@ func isNegation(expr) (r)
+//@   modifies nothing
 //@ func (v *Vue) interpolate(ctx, input) (r, err)
 //@   modifies caches(v)
 //@ func (v *Vue) splitObjectItems(content) (r)
@@ -517,6 +521,7 @@ package vuego
 //@   loop 0 invariant C02.interp.scan: 0 <= last && last <= len(input)
 //@   assert C02.interp.static: 0 <= last && last <= start && start + 2 <= len(input) && start == last + indexOf(input[last:], "{{") &&
 //@     indexOf(input[start + 2:], "}}") >= 0 && endPos == start + 4 + indexOf(input[start + 2:], "}}") && endPos <= len(input) at "io.WriteString(w, input[last:start])"
+//@   assert C13.uniform.text.negation: $arg1 == expr at "call evalConditionExpr"
 //@   assert C02.interp.tail: 0 <= last && last <= len(input) at "io.WriteString(w, input[last:])"
 
 // Bound attributes (C14): a value written with mustaches is interpolated; the object-literal reading applies only
@@ -531,6 +536,7 @@ package vuego
 //@ func (v *Vue) evalBoundAttribute(ctx, attrName, expr) (r, err)
 //@   assert C14.bound.mustache.first: !hasMustache($arg2) at "call evalObjectBinding"
 //@   assert C14.bound.mustache.first.pipe: !hasMustache($arg0) at "call parsePipeExpr"
+//@   assert C13.uniform.bound.negation: $arg1 == trimSpace(expr) at "call evalConditionExpr"
 //@   modifies caches(v)
 //@ func (v *Vue) mergeStyles(staticStyle, boundStyle) (r)
 //@   modifies nothing
